@@ -67,6 +67,9 @@ pub struct Case {
     /// (0 = none); such a case runs on the four `small::*` stores only
     #[serde(default)]
     pub prefill: u32,
+    /// call every operation through a reference to the store (blanket impls for `&T` / `&mut T`)
+    #[serde(default)]
+    pub via_ref: bool,
 }
 
 // ------------------------------------------------------------------ systems under test
@@ -89,6 +92,16 @@ trait Sut: Sized {
 struct Ds<D>(D);
 struct Gr<G>(G);
 
+thread_local! {
+    /// the current case goes through the blanket implementations of the traits for references
+    /// (`impl MutableDataset for &mut T`, `impl Dataset for &T`, ...): the helpers receive
+    /// `&mut &mut store` / `&&store`, as generic code taking a dataset by value does
+    static VIA_REF: std::cell::Cell<bool> = const { std::cell::Cell::new(false) };
+}
+fn via_ref() -> bool {
+    VIA_REF.with(|v| v.get())
+}
+
 macro_rules! sut_ds {
     ($($ty:ty),* $(,)?) => {$(
         impl Sut for Ds<$ty> {
@@ -97,42 +110,42 @@ macro_rules! sut_ds {
                 d_from::<$ty>(qs).map(Ds)
             }
             fn insert(&mut self, q: &MQ) -> Result<bool, String> {
-                d_insert(&mut self.0, q)
+                if via_ref() { d_insert(&mut &mut self.0, q) } else { d_insert(&mut self.0, q) }
             }
             fn remove(&mut self, q: &MQ) -> Result<bool, String> {
-                d_remove(&mut self.0, q)
+                if via_ref() { d_remove(&mut &mut self.0, q) } else { d_remove(&mut self.0, q) }
             }
             fn all(&self) -> Vec<MQ> {
-                d_all(&self.0)
+                if via_ref() { d_all(&&self.0) } else { d_all(&self.0) }
             }
             fn matching(&self, p: &QPat) -> Vec<MQ> {
-                d_matching(&self.0, p)
+                if via_ref() { d_matching(&&self.0, p) } else { d_matching(&self.0, p) }
             }
             fn contains(&self, q: &MQ) -> bool {
-                d_contains(&self.0, q)
+                if via_ref() { d_contains(&&self.0, q) } else { d_contains(&self.0, q) }
             }
             fn remove_matching(&mut self, p: &QPat) -> Result<usize, String> {
-                d_remove_matching(&mut self.0, p)
+                if via_ref() { d_remove_matching(&mut &mut self.0, p) } else { d_remove_matching(&mut self.0, p) }
             }
             fn retain_matching(&mut self, p: &QPat) -> Result<(), String> {
-                d_retain_matching(&mut self.0, p)
+                if via_ref() { d_retain_matching(&mut &mut self.0, p) } else { d_retain_matching(&mut self.0, p) }
             }
             fn insert_all(&mut self, qs: &[MQ]) -> Result<usize, (bool, String)> {
-                d_insert_all(&mut self.0, qs)
+                if via_ref() { d_insert_all(&mut &mut self.0, qs) } else { d_insert_all(&mut self.0, qs) }
             }
             fn remove_all(&mut self, qs: &[MQ]) -> Result<usize, (bool, String)> {
-                d_remove_all(&mut self.0, qs)
+                if via_ref() { d_remove_all(&mut &mut self.0, qs) } else { d_remove_all(&mut self.0, qs) }
             }
             fn term_enums(&self) -> Vec<(&'static str, Vec<MT>)> {
                 vec![
-                    ("subjects", d_subjects(&self.0)),
-                    ("predicates", d_predicates(&self.0)),
-                    ("objects", d_objects(&self.0)),
-                    ("graph_names", d_graph_names(&self.0)),
-                    ("iris", d_iris(&self.0)),
-                    ("blank_nodes", d_blank_nodes(&self.0)),
-                    ("literals", d_literals(&self.0)),
-                    ("variables", d_variables(&self.0)),
+                    ("subjects", if via_ref() { d_subjects(&&self.0) } else { d_subjects(&self.0) }),
+                    ("predicates", if via_ref() { d_predicates(&&self.0) } else { d_predicates(&self.0) }),
+                    ("objects", if via_ref() { d_objects(&&self.0) } else { d_objects(&self.0) }),
+                    ("graph_names", if via_ref() { d_graph_names(&&self.0) } else { d_graph_names(&self.0) }),
+                    ("iris", if via_ref() { d_iris(&&self.0) } else { d_iris(&self.0) }),
+                    ("blank_nodes", if via_ref() { d_blank_nodes(&&self.0) } else { d_blank_nodes(&self.0) }),
+                    ("literals", if via_ref() { d_literals(&&self.0) } else { d_literals(&self.0) }),
+                    ("variables", if via_ref() { d_variables(&&self.0) } else { d_variables(&self.0) }),
                     (
                         "quoted_triples",
                         self.0
@@ -153,41 +166,41 @@ macro_rules! sut_gr {
                 g_from::<$ty>(qs).map(Gr)
             }
             fn insert(&mut self, q: &MQ) -> Result<bool, String> {
-                g_insert(&mut self.0, q)
+                if via_ref() { g_insert(&mut &mut self.0, q) } else { g_insert(&mut self.0, q) }
             }
             fn remove(&mut self, q: &MQ) -> Result<bool, String> {
-                g_remove(&mut self.0, q)
+                if via_ref() { g_remove(&mut &mut self.0, q) } else { g_remove(&mut self.0, q) }
             }
             fn all(&self) -> Vec<MQ> {
-                g_all(&self.0)
+                if via_ref() { g_all(&&self.0) } else { g_all(&self.0) }
             }
             fn matching(&self, p: &QPat) -> Vec<MQ> {
-                g_matching(&self.0, p)
+                if via_ref() { g_matching(&&self.0, p) } else { g_matching(&self.0, p) }
             }
             fn contains(&self, q: &MQ) -> bool {
-                g_contains(&self.0, q)
+                if via_ref() { g_contains(&&self.0, q) } else { g_contains(&self.0, q) }
             }
             fn remove_matching(&mut self, p: &QPat) -> Result<usize, String> {
-                g_remove_matching(&mut self.0, p)
+                if via_ref() { g_remove_matching(&mut &mut self.0, p) } else { g_remove_matching(&mut self.0, p) }
             }
             fn retain_matching(&mut self, p: &QPat) -> Result<(), String> {
-                g_retain_matching(&mut self.0, p)
+                if via_ref() { g_retain_matching(&mut &mut self.0, p) } else { g_retain_matching(&mut self.0, p) }
             }
             fn insert_all(&mut self, qs: &[MQ]) -> Result<usize, (bool, String)> {
-                g_insert_all(&mut self.0, qs)
+                if via_ref() { g_insert_all(&mut &mut self.0, qs) } else { g_insert_all(&mut self.0, qs) }
             }
             fn remove_all(&mut self, qs: &[MQ]) -> Result<usize, (bool, String)> {
-                g_remove_all(&mut self.0, qs)
+                if via_ref() { g_remove_all(&mut &mut self.0, qs) } else { g_remove_all(&mut self.0, qs) }
             }
             fn term_enums(&self) -> Vec<(&'static str, Vec<MT>)> {
                 vec![
-                    ("subjects", g_subjects(&self.0)),
-                    ("predicates", g_predicates(&self.0)),
-                    ("objects", g_objects(&self.0)),
-                    ("iris", g_iris(&self.0)),
-                    ("blank_nodes", g_blank_nodes(&self.0)),
-                    ("literals", g_literals(&self.0)),
-                    ("variables", g_variables(&self.0)),
+                    ("subjects", if via_ref() { g_subjects(&&self.0) } else { g_subjects(&self.0) }),
+                    ("predicates", if via_ref() { g_predicates(&&self.0) } else { g_predicates(&self.0) }),
+                    ("objects", if via_ref() { g_objects(&&self.0) } else { g_objects(&self.0) }),
+                    ("iris", if via_ref() { g_iris(&&self.0) } else { g_iris(&self.0) }),
+                    ("blank_nodes", if via_ref() { g_blank_nodes(&&self.0) } else { g_blank_nodes(&self.0) }),
+                    ("literals", if via_ref() { g_literals(&&self.0) } else { g_literals(&self.0) }),
+                    ("variables", if via_ref() { g_variables(&&self.0) } else { g_variables(&self.0) }),
                     (
                         "quoted_triples",
                         self.0
@@ -1133,8 +1146,8 @@ fn case_strategy(max_ops: usize) -> BoxedStrategy<Case> {
             2 => quad.clone().prop_map(Op::Contains),
             1 => Just(Op::Terms),
         ];
-        (prop::collection::vec(quad, 0..8), prop::collection::vec(op, 1..=max_ops))
-            .prop_map(|(init, ops)| Case { init, ops, only: None, prefill: 0 })
+        (prop::collection::vec(quad, 0..8), prop::collection::vec(op, 1..=max_ops), any::<bool>())
+            .prop_map(|(init, ops, via_ref)| Case { init, ops, only: None, prefill: 0, via_ref })
     })
     .boxed()
 }
@@ -1190,8 +1203,11 @@ impl Check for C01 {
         cases
     }
     fn run(case: &Case, ctx: &mut Ctx) {
+        VIA_REF.with(|v| v.set(case.via_ref));
+        ctx.class(if case.via_ref { "access:through-reference-impls" } else { "access:direct" });
         reference_pass(case, ctx);
         run_all(case, ctx);
+        VIA_REF.with(|v| v.set(false));
     }
     fn show(case: &Case) -> serde_json::Value {
         let ops: Vec<String> = case
